@@ -26,9 +26,14 @@ type scopeSpaceDef struct {
 	others   []map[string]string
 	limit    int64 // >1: only the first limit programs of the range
 	oneLine  bool  // render the whole program on one line (sibling blocks share a line)
+	// fixed: instead of the alphabet, an explicit list of programs (each a list of lines)
+	fixed [][]string
 }
 
 func (d scopeSpaceDef) count() int64 {
+	if d.fixed != nil {
+		return int64(len(d.fixed) * len(d.others))
+	}
 	var lo int64
 	if d.minNodes > 1 {
 		lo = d.alpha.Count(d.minNodes - 1)
@@ -41,6 +46,10 @@ func (d scopeSpaceDef) count() int64 {
 }
 
 func (d scopeSpaceDef) at(i int64) *scopeCase {
+	if d.fixed != nil {
+		nv := int64(len(d.others))
+		return newScopeCase(d.fixed[i/nv], d.others[i%nv])
+	}
 	var lo int64
 	if d.minNodes > 1 {
 		lo = d.alpha.Count(d.minNodes - 1)
@@ -61,20 +70,22 @@ func scopeSpaces(tier string) []scopeSpaceDef {
 	one := otherVariants[:1]
 	if tier == "thorough" {
 		return []scopeSpaceDef{
-			{"forms-1node", forms, 1, 1, otherVariants, 1, false},
-			{"forms-2nodes", forms, 2, 2, one, 1, false},
-			{"structure<=3", structure, 1, 3, one, 1, false},
-			{"structure<=2-all-second-files", structure, 1, 2, otherVariants, 1, false},
-			{"structure<=3-on-one-line", structure, 1, 3, one, 1, true},
-			{"core-4nodes-depth3", coreA, 4, 4, one, 1, false},
+			{"forms-1node", forms, 1, 1, otherVariants, 1, false, nil},
+			{"forms-2nodes", forms, 2, 2, one, 1, false, nil},
+			{"structure<=3", structure, 1, 3, one, 1, false, nil},
+			{"structure<=2-all-second-files", structure, 1, 2, otherVariants, 1, false, nil},
+			{"structure<=3-on-one-line", structure, 1, 3, one, 1, true, nil},
+			{"core-4nodes-depth3", coreA, 4, 4, one, 1, false, nil},
+			{name: "sibling-blocks-on-one-line", others: one, fixed: siblingBlockPrograms()},
 		}
 	}
 	return []scopeSpaceDef{
-		{"forms-1node", forms, 1, 1, otherVariants, 1, false},
-		{"structure<=2-all-second-files", structure, 1, 2, otherVariants, 1, false},
-		{"structure<=2-on-one-line", structure, 1, 2, one, 1, true},
-		{"structure-3nodes", structure, 3, 3, one, 1, false},
-		{"structure-3nodes-on-one-line-first-40000", structure, 3, 3, one, 40000, true},
+		{"forms-1node", forms, 1, 1, otherVariants, 1, false, nil},
+		{"structure<=2-all-second-files", structure, 1, 2, otherVariants, 1, false, nil},
+		{"structure<=2-on-one-line", structure, 1, 2, one, 1, true, nil},
+		{"structure-3nodes", structure, 3, 3, one, 1, false, nil},
+		{"structure-3nodes-on-one-line-first-40000", structure, 3, 3, one, 40000, true, nil},
+		{name: "sibling-blocks-on-one-line", others: one, fixed: siblingBlockPrograms()},
 	}
 }
 
